@@ -243,3 +243,31 @@ def sentinels_are_unique_objects(chk, rule: str, modules=('ports',)) -> None:
                    'a literal every equal value is identical to -- a caller passing that value is treated as having passed nothing (type check and validator skipped for an optional '
                    'port, "required value was not provided" for a port that accepts it)'), kind='sentinel-unique', expr=name)
     chk.units['identity_sentinels'] = n
+
+
+def waiting_future_key(prog) -> str:
+    """``self.<attr>``: the attribute the base WAITING state awaits in execute() -- read from the code, so that the rules about the waiting
+    future follow a rename of that private attribute."""
+    import ast as _ast
+    cached = getattr(prog, '_waiting_future_key', None)
+    if cached:
+        return cached
+    key = 'self._waiting_future'
+    we = prog.try_func('process_states.Waiting.execute')
+    if we is not None:
+        cands = []
+        for n in _ast.walk(we.node):
+            if isinstance(n, _ast.Await):
+                v = n.value
+                if isinstance(v, _ast.Call) and not v.args and isinstance(v.func, _ast.Attribute):     # lazily creating accessor
+                    oc = we.owner_class
+                    g = oc.lookup(v.func.attr) if oc is not None else None
+                    from ..model import accessor_value
+                    av = accessor_value(g) if g is not None else None
+                    v = av if av is not None else v
+                if isinstance(v, _ast.Attribute) and isinstance(v.value, _ast.Name) and v.value.id == 'self':
+                    cands.append(f'self.{v.attr}')
+        if len(set(cands)) == 1:
+            key = cands[0]
+    prog._waiting_future_key = key  # type: ignore[attr-defined]
+    return key
